@@ -500,7 +500,7 @@ def totality_cases():
     return st.one_of(junk_cases(), junk_cases(), accept_cases())
 
 
-def targets(tier):
+def _targets(tier):
     return [
         Target(
             "roundtrip",
@@ -543,3 +543,14 @@ def targets(tier):
             ],
         ),
     ]
+
+
+def targets(tier):
+    ts = _targets(tier)
+    if tier == "thorough":
+        # coverage-guided add-on (atheris/libFuzzer through Hypothesis' fuzz_one_input); skipped with a class label if atheris is missing
+        from vf import fuzz
+
+        for name in ['accept-set', 'totality']:
+            ts.append(fuzz.campaign_target(PROPERTY, name, campaigns=16, runs=30000))
+    return ts
